@@ -149,7 +149,9 @@ class StateMachine(metaclass=StateMachineMetaclass):
         self._engine = self._get_engine(rtc)
 
     def _get_initial_state(self):
-        initial_state_value = self.start_value if self.start_value else self.initial_state.value
+        initial_state_value = (
+            self.start_value if self.start_value is not None else self.initial_state.value
+        )
         try:
             return self.states_map[initial_state_value]
         except KeyError as err:
